@@ -153,7 +153,7 @@ impl S14 {
     /// primary keys, which share the metadata column).
     pub fn subjects(thorough: bool) -> Vec<S14> {
         if thorough {
-            vec![S14::new(&[1], 4, true, 6), S14::new(&[0], 3, false, 7), S14::new(&[0, 1, 2], 3, false, 5), S14::new(&[2, 1], 2, true, 6)]
+            vec![S14::new(&[1], 4, true, 6), S14::new(&[0], 3, false, 7), S14::new(&[0, 1, 2], 3, false, 5), S14::new(&[2, 1], 2, true, 5)]
         } else {
             vec![S14::new(&[0], 3, false, 5), S14::new(&[1, 0], 2, false, 4)]
         }
